@@ -575,6 +575,63 @@ def enum_large(tier, seed):
                 yield dict(sa=sa, sb=sb, k=k, sample_lists=sl, ops=hist)
 
 
+def enum_regimes(tier, seed):
+    for T in ([70, 140] if tier == "quick" else [66, 70, 130, 140, 300]):
+        for sl in (True, False):
+            yield dict(kind="hops", T=T, sample_lists=sl)
+    for scale in ("ulp", "huge", "tiny"):
+        for sl in (True, False):
+            yield dict(kind="coords", scale=scale, sample_lists=sl)
+
+
+def run_regimes(case, ctx):
+    """(a) hops of more than 64 trees in both directions from a positioned tree, on sequences of 70-140 trees;
+    (b) trees one ulp wide, coordinates near the largest double and near the smallest."""
+    import math
+
+    import tskit
+
+    from . import c01
+
+    ctx.nt(True)
+    if case["kind"] == "hops":
+        T = case["T"]
+        spec = c01.many_trees_spec(T, 1)
+        ops = [["seek_index", T - 1], ["seek_index", 2], ["seek_index", T - 3], ["seek_index", T // 2], ["seek_index", 1],
+               ["seek_index", T // 2 + 70 if T // 2 + 70 < T else T - 1], ["seek_index", T // 2 - 2], ["next"], ["prev"],
+               ["seek_index", 0], ["seek_index", 70 if T > 70 else T - 1], ["seek_index", 3], ["copy", 0],
+               ["seek_index", T - 2], ["seek_index", T // 3]]
+    else:
+        if case["scale"] == "ulp":
+            a = 1.0
+            b = math.nextafter(a, math.inf)
+            bps = [0.0, a, b, math.nextafter(b, math.inf), 2.0]
+        elif case["scale"] == "huge":
+            a = 0.95e308
+            b = math.nextafter(a, math.inf)
+            bps = [0.0, 0.5e308, a, b, 1.7e308]
+        else:
+            a = 5e-324
+            bps = [0.0, a, 2 * a, 1e-300, 1.0]
+        n = len(bps)
+        nodes = [[1, 0.0, -1, -1, ""], [1, 0.0, -1, -1, ""], [1, 0.0, -1, -1, ""]] + [[0, 1.0 + i, -1, -1, ""] for i in range(n)]
+        edges = []
+        for i in range(n - 1):
+            p_ = 3 + i
+            edges.append([bps[i], bps[i + 1], p_, 0, ""])
+            edges.append([bps[i], bps[i + 1], p_, 1 + (i % 2), ""])
+        times = [nd[1] for nd in nodes]
+        edges.sort(key=lambda e: (times[e[2]], e[2], e[3], e[0]))
+        spec = dict(L=bps[-1], nodes=nodes, edges=edges, sites=[], mutations=[], individuals=[], populations=[],
+                    migrations=[])
+        ops = [["seek_index", 1], ["seek_index", 2], ["seek_index", 3], ["seek_index", 0], ["last"], ["seek_index", 1],
+               ["prev"], ["next"], ["next"], ["clear"], ["seek_index", 2], ["seek_index", 1]]
+    smp = model.samples(spec)
+    opts = dict(sample_lists=case["sample_lists"], root_threshold=1, tracked=smp[:2])
+    ts = gen.build_tables(spec, tskit).tree_sequence()
+    run_history_ops(ctx, tskit, spec, ts, opts, ops, deep_every=10**9)
+
+
 def run_large(case, ctx):
     """Navigation histories on trees with hundreds of nodes (wide polytomies, deep combs, many roots) and
     internal samples among the tracked ones."""
@@ -653,6 +710,9 @@ SUBCHECKS = [
                      "next_to_null": 0.1, "prev_to_null": 0.1, "bad_seek": 0.1, "sample_lists": 0.2,
                      "tracked": 0.2, "internal_sample": 0.2, "mutations": 0.2, "null_reentry": 0.2,
                      "cleared_with_tracked_below_internal_sample": 0.05, "tracked_internal_reentered": 0.05}),
+    SubCheck("C06.regimes", run_regimes, enumerate=enum_regimes, quick=1, thorough=1, shards=10,
+             rule="hops of >64 trees in both directions on 70-140-tree (thorough: 300) sequences; trees one ulp wide and "
+                  "coordinates near the largest / smallest doubles"),
     SubCheck("C06.large_shapes", run_large, enumerate=enum_large, quick=1, thorough=1,
              rule="17-step navigation history on two-tree sequences over 65-130 (thorough: 300) leaf samples with internal samples tracked"),
     SubCheck("C06.exhaustive_ops", run_exhaustive, strategy=exhaustive_case, quick=600, thorough=1500,
